@@ -231,9 +231,9 @@ func c13ints(ty string, xs ...int) string {
 }
 
 func c13run(r *report.Run) {
-	maxChunks := 2
+	maxChunks := 3
 	if r.Tier == "thorough" {
-		maxChunks = 3
+		maxChunks = 4
 	}
 	strs := c13strings(maxChunks)
 	r.Rule(fmt.Sprintf("all %d strings built from <=%d chunks of {a, é, €, 🐐, \\xff, \\xc3} x len, every index, every slice (4 spellings), range (3 forms), []byte round trip, all ordered pairs x 6 comparisons, concatenation with aliases, byte arithmetic; string(rune) for 12 boundary runes; every escape sequence in interpreted/raw/rune literals; non-trivial = case involving a multi-byte or invalid sequence", len(strs), maxChunks))
